@@ -4,11 +4,16 @@ Import ListNotations.
 From FP Require Import Validate Effects.
 Set Default Timeout 60.
 
+Lemma ext_step_none h o : ext_step ext_alias h o = h.
+Proof. unfold ext_step, ext_alias. rewrite andb_false_r. reflexivity. Qed.
+Lemma step_gen_opts hold_of h o : step_gen hold_of h o = opts_step hold_of h o.
+Proof. unfold step_gen, step_gen2. apply ext_step_none. Qed.
+
 Section Gen.
 Variable hold_of : cls -> hold.
 Lemma frame_quiet h o : quiet_gen hold_of h o = true -> step_gen hold_of h o = h.
 Proof.
-  unfold quiet_gen, step_gen. destruct (negb (o_pass_opts o) || is_empty (h_opts h)); cbn; [reflexivity|].
+  rewrite step_gen_opts. unfold quiet_gen, opts_step. destruct (negb (o_pass_opts o) || is_empty (h_opts h)); cbn; [reflexivity|].
   destruct (hold_of (o_cls o)); try reflexivity; try discriminate.
   destruct (o_solve o); cbn; [discriminate|reflexivity].
 Qed.
@@ -31,7 +36,7 @@ Theorem history_independent ops h o : model_of (run ops h) o = model_of h o.
 Proof. rewrite run_frame. reflexivity. Qed.
 
 Definition ex_heap : heap :=
-  {| h_graph := []; h_opts := [KUser 0]; h_sopts := [1]; h_cons := [2]; h_ign := []; h_starts := []; h_ends := []; h_defaults := [] |}.
+  {| h_graph := []; h_opts := [KUser 0]; h_has_ext := true; h_ext := []; h_sopts := [1]; h_cons := [2]; h_ign := []; h_starts := []; h_ends := []; h_defaults := [] |}.
 Definition mk_op c p s hc sv := {| o_cls := c; o_pass_opts := p; o_sup := s; o_hc := hc; o_solve := sv |}.
 
 (* ---------------------------------------------------------------- old behaviour (before 5ed9792) *)
@@ -99,7 +104,8 @@ Lemma step_only_opts hold_of h o :
   h_graph h' = h_graph h /\ h_sopts h' = h_sopts h /\ h_cons h' = h_cons h /\
   h_ign h' = h_ign h /\ h_starts h' = h_starts h /\ h_ends h' = h_ends h /\ h_defaults h' = h_defaults h.
 Proof.
-  unfold step_gen. destruct (negb (o_pass_opts o) || is_empty (h_opts h)); [repeat split|].
+  cbv zeta. rewrite step_gen_opts.
+  unfold opts_step. destruct (negb (o_pass_opts o) || is_empty (h_opts h)); [repeat split|].
   destruct (hold_of (o_cls o)); try (repeat split); destruct (o_solve o); repeat split.
 Qed.
 Theorem run_only_opts hold_of ops : forall h,
@@ -118,7 +124,7 @@ Theorem run_keeps_keys hold_of ops : forall h k,
 Proof.
   induction ops as [|o r IH]; intros h k H; [exact H|].
   change (run_gen hold_of (o :: r) h) with (run_gen hold_of r (step_gen hold_of h o)). apply IH.
-  unfold step_gen. destruct (negb (o_pass_opts o) || is_empty (h_opts h)); [exact H|].
+  rewrite step_gen_opts. unfold opts_step. destruct (negb (o_pass_opts o) || is_empty (h_opts h)); [exact H|].
   destruct (hold_of (o_cls o)); try exact H.
   - cbn. apply set_keys_keeps. exact H.
   - destruct (o_solve o); [cbn; apply set_keys_keeps|]; exact H.
@@ -134,6 +140,33 @@ Proof.
   - destruct (ms_solved m) eqn:S; cbn; [auto|]. rewrite C, S. cbn. rewrite C, S. auto.
 Qed.
 
+
+(* ---------------------------------------------------------------- option values that are lists (external_safe_paths) *)
+(* the code at 003f186 keeps the caller's list and extends it: frame and history independence fail for that summary *)
+Theorem head_frame_refuted : forall c, old_ext_alias c = true -> exists h o, o_cls o = c /\ head_step h o <> h.
+Proof.
+  intros c H. exists ex_heap, (mk_op c true false true true). split; [reflexivity|].
+  destruct c; cbn in H; try discriminate; vm_compute; discriminate.
+Qed.
+Theorem head_history_independent_refuted : exists ops h o, model_of (head_run ops h) o <> model_of h o.
+Proof.
+  exists [mk_op CkLeastAbsErrors true false true true], ex_heap, (mk_op CkMinPathError true false true true).
+  vm_compute. discriminate.
+Qed.
+(* with the list copied (ext_alias) the switch-off run is the framed one *)
+Theorem run_sw_off ops h : run_sw false ops h = h.
+Proof. unfold run_sw. apply run_frame. Qed.
+(* even the aliasing summary touches nothing but that list *)
+Lemma head_step_only_ext h o :
+  let h' := head_step h o in
+  h_graph h' = h_graph h /\ h_opts h' = h_opts h /\ h_sopts h' = h_sopts h /\ h_cons h' = h_cons h /\
+  h_ign h' = h_ign h /\ h_starts h' = h_starts h /\ h_ends h' = h_ends h /\ h_defaults h' = h_defaults h.
+Proof.
+  cbv zeta. unfold head_step, step_gen2.
+  assert (E : opts_step opts_hold h o = h).
+  { rewrite <- step_gen_opts. apply frame. }
+  rewrite E. unfold ext_step. destruct (_ && _ && _ && _ && _); repeat split.
+Qed.
 
 Theorem frame_participants p pass sup hc sv h : step h (op_of p pass sup hc sv) = h.
 Proof. apply frame. Qed.
